@@ -18,7 +18,9 @@ SYNTAX = {'css': (': ', ';'), 'scss': (': ', ';'), 'sass': (': ', ''), 'less': (
 USER = {'pos': 'float:left|right', 'zzq': 'zoom:2|3', 'zzr': 'hello ${1:w} ${2}', 'c': 'cursor:help|move', 'ovh': 'overflow:hidden',
         'mTq': 'margin-top:auto|0', 'Zq': 'z-index:1|2',
         # first alternative of several tokens / a function call with arguments
-        'zzs': 'a {\n${1}\n}', 'tsq': 'text-shadow:${1:h}${2:v} ${3:#000}', 'mxq': 'margin:0 auto|0', 'fnq': 'transform:rotate(10deg, 2) x|none', 'bdq': 'border:1px solid #f00|0'}          # keys are matched without regard to letter case
+        'zzs': 'a {\n${1}\n}', 'tsq': 'text-shadow:${1:h}${2:v} ${3:#000}', 'mxq': 'margin:0 auto|0', 'fnq': 'transform:rotate(10deg, 2) x|none', 'bdq': 'border:1px solid #f00|0',
+        # several declarations on one line: a semicolon is no part of a property value, the definition is a raw snippet
+        'trq': 'overflow:hidden;text-overflow:ellipsis'}          # keys are matched without regard to letter case
 FIELD = re.compile(r'\$\{(\d+)(?::([^}]*))?\}')
 
 
